@@ -231,7 +231,8 @@ def result_pipeline(cx: Cx, fn, paths: List[Path], p: Path, ret: Term, table=Non
     if lf.base_src is None or lf.elem is None:
         return 'the result list is never filled on this path'
     src, v = strip_versions(lf.base_src), lf.base_var
-    if isinstance(src, App) and src.fn in ('.imap_unordered', '.imap', '.map') and len(src.args) == 3 and not src.kw:
+    if isinstance(src, App) and src.fn in ('.imap_unordered', '.imap', '.map') and len(src.args) in (3, 4) and \
+            all(k == 'chunksize' for k, _ in (src.kw or ())):       # chunksize only batches the dispatch (trusted library)
         F, W, x, via = src.args[1], src.args[2], v, src.fn
     elif isinstance(src, App) and src.fn in ('map', 'call') and Sym('builtins.map') in src.args[:1] and len(src.args) == 3:
         F, W, x, via = src.args[1], src.args[2], v, 'serial'
